@@ -106,6 +106,23 @@ def design_runs(ctx, family):
     return out
 
 
+def repair_design_runs(ctx):
+    """RepoRepair.tla: repair index / repair packs after environment damage, crash anywhere.  Thorough: the
+    positive configuration (one damage step, ~4.3 M states); both tiers: the four broken twins must be refuted."""
+    out = []
+    if ctx.thorough():
+        r = ctx.tlc("RepoRepair", cfg="RepoRepair_small.cfg", workers=12, name="repair_design", timeout=3000)
+        out.append({"cfg": "RepoRepair_small", "states": r["states"], "transitions": r["transitions"], "result": "holds"})
+    twins = {"ri_delete_first": "NoNewLoss", "ri_keep_missing": "RepairIndexPost", "rp_remove_first": "NoNewLoss",
+             "rp_first_blob_only": "NoNewLoss"}
+    for c, exp in twins.items():
+        r = ctx.tlc("RepoRepair", cfg="RepoRepair_%s.cfg" % c, workers=4, name="repair_twin_" + c, timeout=900, allow_violation=True)
+        if exp not in r["violated"]:
+            raise verif.MachineryError("negative twin %s was not refuted (expected %s, got %s)" % (c, exp, r["violated"]))
+        out.append({"cfg": "RepoRepair_" + c, "states": r["states"], "transitions": r["transitions"], "result": "refuted: " + exp})
+    return out
+
+
 def protocol_proof(ctx):
     """TLAPS proof (spec/RepoProtocol.tla) that the ordering rules checked on recorded steps preserve
     SnapshotIndexed and IndexSound for repositories of any size.  Independent of /repo."""
